@@ -106,7 +106,9 @@ func runCell(id string, c cell) runner.Result {
 	if c.server {
 		end = x.Rig.Pair.B
 	}
-	end.SetFault(simnet.Fault{Kind: c.kind, Offset: c.offset})
+	// every other injected read/write error describes itself as a timeout (Temporary() == true):
+	// it is a failure of the transport all the same
+	end.SetFault(simnet.Fault{Kind: c.kind, Offset: c.offset, Temporary: c.offset%2 == 1})
 	x.Start([][]*prog.Script{scripts2(w, x)})
 	st := x.WaitClients()
 	if st == "watchdog" {
